@@ -17,6 +17,7 @@ import (
 	"github.com/redis/rueidis"
 
 	"verifharness/gen"
+	lruh "verifharness/lru"
 	"verifharness/obs"
 )
 
@@ -115,6 +116,7 @@ func resplit(r *gen.Rand, a Cmd) Cmd {
 }
 
 func genCase(r *gen.Rand, i int) any {
+	r = lruh.Reseed(r)
 	switch x := r.Intn(20); {
 	case x < 5:
 		return &Case{Kind: "key", A: genCmd(r)}
